@@ -540,6 +540,12 @@ class Counter(LogicBlock):
                                ms=self.config['multiple_hit_window'],
                                callback=self.stop_ignoring_hits)
 
+    def device_removed_from_mode(self, mode: Mode):
+        """Forget a running multiple_hit_window."""
+        super().device_removed_from_mode(mode)
+        self.delay.remove('ignore_hits_within_window')
+        self.ignore_hits = False
+
     def stop_ignoring_hits(self, **kwargs):
         """Cause the Counter to stop ignoring subsequent hits that occur within the 'multiple_hit_window'.
 
